@@ -140,7 +140,7 @@ def run_property(pid, tier, seed, relock=False, verbose=False):
 
     # ---- bounded stand-in: the same contract text evaluated on the real functions (plus property-specific harnesses)
     bounded = {'evaluations': 0, 'distinct_nontrivial': 0, 'samples': [], 'rule': '', 'witnesses': []}
-    qs = [q for q in list(P['functions']) + list(P.get('bounded_only', [])) if q in db.contracts]
+    qs = [q for q in list(P['functions']) + list(P.get('bounded_only', [])) if q in db.contracts and q not in P.get('concrete_skip', [])]
     budget_env = {'VK_BUDGET': '300' if tier == 'quick' else '3000'}
     try:
         if not qs:
